@@ -928,6 +928,9 @@ func (l *ChainedSeqContext1) encode() []byte {
 
 		pos := 2 + 2*chainedSeqRuleCount
 		for _, rule := range rules {
+			if pos > 0xFFFF {
+				panic("ChainedSeqContext1 too large")
+			}
 			buf = append(buf,
 				byte(pos>>8), byte(pos),
 			)
